@@ -643,7 +643,14 @@ Varable failures: {var_failed}
 
     def _add2Varlist(self, varkeys):
         varliststr = getattr(self, 'VAR-LIST', '')
-        keys = [k for k in varliststr.split() if k in self.variables]
+        if len(varliststr) % 16 == 0:
+            # fixed 16-character fields (a full-width name has no space
+            # between it and the next name)
+            listed = [varliststr[i:i + 16].strip()
+                      for i in range(0, len(varliststr), 16)]
+        else:
+            listed = varliststr.split()
+        keys = [k for k in listed if k in self.variables]
         newkeys = set(varkeys).difference(keys + ['ETFLAG', 'TFLAG'])
         # as in getVarlist: only variables with at most 16 characters and
         # the standard IOAPI dimensions belong in VAR-LIST
